@@ -1,6 +1,7 @@
 //! Per-processor state for worker threads.
 
 use std::collections::VecDeque;
+use std::mem;
 use std::sync::Mutex;
 use std::sync::atomic::{AtomicBool, AtomicU64, Ordering};
 
@@ -8,7 +9,7 @@ use event_listener::Event;
 use events_once::EventLake;
 use plurality::MultiPool;
 
-use crate::ErasedTaskHandle;
+use crate::{ErasedTaskHandle, NEVER_POISONED};
 
 /// Everything a processor's worker threads share: the work they draw from, the storage that
 /// work lives in, and the signals that tell them to wake up or stop.
@@ -67,6 +68,19 @@ impl ProcessorState {
         // before they observe the shutdown flag.
         self.shutdown_flag.store(true, Ordering::Release);
         self.wake_event.notify(usize::MAX);
+    }
+
+    /// Drops every task that is still queued, which resolves the corresponding join handles
+    /// as abandoned. Used once the workers of this processor can no longer be relied upon to
+    /// drain the queues (the pool is shutting down or has shut down).
+    ///
+    /// The tasks are dropped after the queue locks are released because dropping a task runs
+    /// the destructor of a user-provided closure.
+    pub(crate) fn abandon_queued_tasks(&self) {
+        let urgent = mem::take(&mut *self.urgent_queue.lock().expect(NEVER_POISONED));
+        let regular = mem::take(&mut *self.regular_queue.lock().expect(NEVER_POISONED));
+        drop(urgent);
+        drop(regular);
     }
 
     pub(crate) fn record_task_spawned(&self) {
